@@ -42,6 +42,7 @@ func init() {
 			{Worlds: []string{"stakefull"}, Quick: b(1, 1, 2), Thorough: b(2, 2, 3)},
 			{Worlds: []string{"stakemany"}, Quick: b(1, 1, 2), Thorough: b(2, 1, 3)},
 			{Worlds: []string{"stakemany102"}, Quick: b(1, 1, 2), Thorough: b(1, 1, 3)},
+			{Worlds: []string{"stakemanytie"}, Quick: b(1, 1, 2), Thorough: b(2, 2, 3)},
 			{Worlds: worlds.C16GridWorldNames(n), Label: fmt.Sprintf("stakegrid%d", n), Quick: b(1, 1, 2), Thorough: b(2, 2, 2)},
 			{Worlds: cut, Label: "stakecut", Quick: b(1, 1, 2), Thorough: b(2, 2, 2)},
 		}
